@@ -7,7 +7,7 @@ pub fn module() -> PropModule {
     PropModule {
         coq_module: "Check_C10",
         runner: "Check_C10.run_C10",
-        generate: |r, t| actions::generate(r, t, 100),
+        generate: |r, t| actions::generate(r, t, 80),
         execute: |v: &Value| actions::execute(v, &[5, 6, 7]),
         label: actions::label,
     }
